@@ -409,7 +409,8 @@ class Run:
                     self.judge(cases, verdicts, "tier=%s seed=%d" % (self.tier, self.seed))
         # --- violation protocol (DESIGN.md 3.3): something no longer checks, but no failing input yet -> search
         searched = 0
-        if self.broken and not self.violations and replay_path is None and os.path.exists(getattr(self, "bin", "/nonexistent")):
+        timed_out = any(b["name"].startswith("harness exit 124") for b in self.broken)
+        if self.broken and not self.violations and not timed_out and replay_path is None and os.path.exists(getattr(self, "bin", "/nonexistent")):
             self.log("an obligation/correspondence no longer checks: searching for a failing input with the property monitor")
             budget = P.get("search_seeds", 3)
             t_search = time.time()
@@ -426,6 +427,27 @@ class Run:
                     searched += len(c)
                 if self.violations:
                     break
+        # --- shrink the failing input (delta debugging over the candidates the property's configuration proposes)
+        if self.violations and P.get("shrink") and replay_path is None and os.path.exists(getattr(self, "bin", "/nonexistent")):
+            v = self.violations[0]
+            cur, tries = v["req"], 0
+            improved = True
+            while improved and tries < P.get("shrink_budget", 40):
+                improved = False
+                for cand in P["shrink"](cur):
+                    tries += 1
+                    if tries >= P.get("shrink_budget", 40):
+                        break
+                    c, _, _ = self.run_harness("quick", self.seed, replay=cand, tag=".shrink")
+                    vv = self.drive(c) if c else None
+                    if vv and any(m != "ok" for _, m in vv):
+                        k = next(i for i, (_, m) in enumerate(vv) if m != "ok")
+                        cur = cand
+                        v = dict(v, req=c[k][0], observed=c[k][1], model=vv[k][0], rule=vv[k][1], shrunk_from=self.violations[0]["req"])
+                        improved = True
+                        break
+            self.violations[0] = v
+            self.broken = [b for b in self.broken if not b["name"].startswith("harness exit")]
         if P.get("extra"):
             # property-specific additional obligations; may append to self.broken / self.violations and add keys to self.cov
             P["extra"](self)
@@ -503,7 +525,7 @@ class Run:
             v = self.violations[0]
             rp = {"property": self.pid, "kind": "failing-input", "seed": self.seed, "tier": self.tier, "repo_head": head,
                   "case": {"req": v["req"]}, "expected": v["model"], "observed": v["observed"], "monitor_rule": v["rule"],
-                  "found_by": v["source"], "more": self.violations[1:6],
+                  "found_by": v["source"], "shrunk_from": v.get("shrunk_from"), "more": self.violations[1:6],
                   "broken": [{k: b[k] for k in ("kind", "name", "detail")} for b in self.broken][:10],
                   "replay_cmd": "./check %s --replay %s" % (self.pid, path)}
             json.dump(rp, open(path, "w"), indent=1)
